@@ -22,6 +22,7 @@ from __future__ import annotations
 import ast
 from pathlib import Path
 
+from . import c11_norm as norm
 from .common import HEADER, body_no_doc, fail, find_func, parse
 
 REL = "pyxel/calibration/util.py"
@@ -157,41 +158,202 @@ def _helpers(tree) -> frozenset:
     return frozenset(found)
 
 
-def _guards(fn: ast.FunctionDef, sides: dict, allow_pre: bool, helpers: frozenset = frozenset()) -> list[str]:
-    out = []
-    env: dict = {}
-    for st in body_no_doc(fn):
-        # <a>, <b> = _bounds(<range>.<dim>, <bound>)
-        if ("_bounds" in helpers and isinstance(st, ast.Assign) and len(st.targets) == 1
-                and isinstance(st.targets[0], ast.Tuple) and len(st.targets[0].elts) == 2
-                and all(isinstance(e, ast.Name) for e in st.targets[0].elts)):
-            h = _helper_call(st.value, "_bounds", sides)
-            a, b = (e.id for e in st.targets[0].elts)
-            if h is None or a in env or b in env or a in BOUNDS or b in BOUNDS or a in sides or b in sides:
-                fail(st, f"{fn.name}: unsupported assignment")
-            env[a] = f"(ERStart {h[0]} {h[1]} {h[2]})"
-            env[b] = f"(ERStop {h[0]} {h[1]} {h[2]})"
-            continue
-        if not (isinstance(st, ast.If) and not st.orelse and _raises_value_error(st.body)):
-            fail(st, f"{fn.name}: every statement must be `if <cond>: raise ValueError(...)`")
-        t = st.test
-        # if <bound> is None: raise
-        if (isinstance(t, ast.Compare) and len(t.ops) == 1 and isinstance(t.ops[0], ast.Is)
-                and isinstance(t.left, ast.Name) and t.left.id in BOUNDS
-                and isinstance(t.comparators[0], ast.Constant) and t.comparators[0].value is None):
-            out.append(f"GNone {BOUNDS[t.left.id]}")
-            continue
-        pre = "PAlways"
-        if isinstance(t, ast.BoolOp) and isinstance(t.op, ast.And):
-            if not (allow_pre and len(t.values) == 3 and _is_isinstance(t.values[0], "target_fit_range", "FitRange3D")
-                    and _is_isinstance(t.values[1], "out_fit_range", "FitRange3D")):
-                fail(t, "unsupported conjunction in a range guard")
-            pre, t = "PBoth3D", t.values[2]
-        for neg, a, op, b in _compare(t, sides, env, helpers):
-            out.append(f"GCmp {pre} {'true' if neg else 'false'} {a} {op} {b}")
-    if not out:
-        fail(fn, f"{fn.name}: no guard found")
-    return out
+# canonical form of one comparison that raises when it is TRUE (`neg` = raises when it is FALSE), over integers
+# (None operands make both forms raise the same TypeError): order comparisons are written `not (x <= y)` / `not (x < y)`,
+# (in)equalities `x != y` / `x == y`, so that `a > b`, `not a <= b`, `b < a` are one row
+def _canon(neg: bool, a: str, op: str, b: str) -> tuple[bool, str, str, str]:
+    if op in ("CEq", "CNe"):
+        if neg:
+            neg, op = False, ("CNe" if op == "CEq" else "CEq")
+        return neg, a, op, b
+    if op in ("CGe", "CGt"):                  # a >= b  ==  b <= a
+        a, b, op = b, a, ("CLe" if op == "CGe" else "CLt")
+    if not neg:                               # a <= b  ==  not (b < a)
+        a, b, op, neg = b, a, ("CLt" if op == "CLe" else "CLe"), True
+    return neg, a, op, b
+
+
+class _GuardWalk:
+    """A guard function (`FitRange2D.check`, `FitRange3D.check`, `_check_out_fit_ranges`) as the ordered list of
+    conditions under which it raises ValueError.  Accepted: local names bound once to the result of `_bounds` / `_length`
+    / a range end point / a difference (substituted); `if` / `elif` / `else` nests, guard clauses, `return`, `pass`,
+    `assert isinstance(...)`-free bodies; conditions built with `not`, `and`, `or`, chained comparisons, `isinstance(<range>,
+    FitRange3D)`, `<bound> is None`.  A raise condition must be a disjunction of `[both ranges are 3D and] <comparison>`
+    (the shape of a table row); everything else fails closed."""
+
+    def __init__(self, fn, sides, allow_pre, helpers):
+        self.fn, self.sides, self.allow_pre, self.helpers = fn, sides, allow_pre, helpers
+        self.env: dict = {}          # local name -> (Gallina expr, may raise?, number of guards emitted when bound, path)
+        self.out: list[str] = []
+
+    # -- conditions -> formula: ('lit', neg, node) | ('isinst', side) | ('none', bound) | ('and'|'or', [..]) | ('not', f)
+    def formula(self, t):
+        if isinstance(t, ast.UnaryOp) and isinstance(t.op, ast.Not):
+            return ("not", self.formula(t.operand))
+        if isinstance(t, ast.BoolOp):
+            return ("and" if isinstance(t.op, ast.And) else "or", [self.formula(v) for v in t.values])
+        for var in ("target_fit_range", "out_fit_range"):
+            if _is_isinstance(t, var, "FitRange3D") and var in self.sides:
+                return ("isinst", var)
+        if isinstance(t, ast.Compare) and len(t.ops) == 1 and isinstance(t.ops[0], (ast.Is, ast.IsNot)) \
+                and isinstance(t.left, ast.Name) and t.left.id in BOUNDS and t.left.id not in self.env \
+                and isinstance(t.comparators[0], ast.Constant) and t.comparators[0].value is None:
+            f = ("none", BOUNDS[t.left.id])
+            return f if isinstance(t.ops[0], ast.Is) else ("not", f)
+        if isinstance(t, ast.Compare) and all(type(o) in OPS for o in t.ops):
+            terms = [t.left, *t.comparators]
+            links = [("lit", x, OPS[type(op)], y) for x, op, y in zip(terms, t.ops, terms[1:])]
+            return links[0] if len(links) == 1 else ("and", links)
+        fail(t, f"{self.fn.name}: unsupported condition in a range guard")
+
+    def nnf(self, f, neg=False):
+        k = f[0]
+        if k == "not":
+            return self.nnf(f[1], not neg)
+        if k in ("and", "or"):
+            kk = k if not neg else ("or" if k == "and" else "and")
+            parts = []
+            for x in f[1]:
+                y = self.nnf(x, neg)
+                parts += y[1] if y[0] == kk else [y]          # flatten
+            return (kk, parts)
+        return ("atom", neg, f)
+
+    def rows(self, f, pre: list, node) -> list[tuple[list, tuple]]:
+        """negation normal form -> [(isinstance facts, literal)] in evaluation order"""
+        if f[0] == "or":
+            return [r for x in f[1] for r in self.rows(x, pre, node)]
+        if f[0] == "and":
+            facts, rest = list(pre), []
+            for x in f[1]:
+                if x[0] == "atom" and x[2][0] == "isinst" and not x[1] and not rest:
+                    facts.append(x[2][1])
+                else:
+                    rest.append(x)
+            if len(rest) != 1:
+                fail(node, f"{self.fn.name}: a conjunction of comparisons is not the shape of a guard row")
+            return self.rows(rest[0], facts, node)
+        _, neg, a = f
+        if a[0] == "isinst":
+            fail(node, f"{self.fn.name}: unsupported use of isinstance in a range guard")
+        return [(list(pre), (neg, a))]
+
+    def pre_of(self, facts, node) -> str:
+        s = set(facts)
+        if not s:
+            return "PAlways"
+        if self.allow_pre and s == {"target_fit_range", "out_fit_range"}:
+            return "PBoth3D"
+        fail(node, f"{self.fn.name}: a guard that depends on the kind of one range only is not the shape of a guard row")
+
+    def operand(self, node, facts, stmt) -> str:
+        if isinstance(node, ast.Name) and node.id in self.env:
+            ex, may_raise, n_emitted, path = self.env[node.id]
+            if may_raise and (set(path) != set(facts) or n_emitted != self.n_at_stmt):
+                fail(stmt, f"{self.fn.name}: {node.id!r} is computed under other conditions than the comparison that uses it")
+            return ex
+        return _expr(node, self.sides, {k: v[0] for k, v in self.env.items()}, self.helpers)
+
+    def emit(self, cond_rows, stmt):
+        for facts, (neg, a) in cond_rows:
+            if a[0] == "none":
+                if neg or facts:
+                    fail(stmt, f"{self.fn.name}: unsupported guard on an absent size")
+                self.out.append(f"GNone {a[1]}")
+                continue
+            _, x, op, y = a
+            pre = self.pre_of(facts, stmt)
+            # a raise on a TRUE comparison is `neg = false`; under `not` the row raises when the comparison is FALSE
+            n, ea, o, eb = _canon(neg, self.operand(x, facts, stmt), op, self.operand(y, facts, stmt))
+            self.out.append(f"GCmp {pre} {'true' if n else 'false'} {ea} {o} {eb}")
+
+    # -- statements
+    def bind(self, st, path):
+        tg = st.targets[0] if isinstance(st, ast.Assign) else st.target
+        val = st.value
+        env0 = {k: v[0] for k, v in self.env.items()}
+
+        def new(name, ex, src):
+            if name in self.env or name in BOUNDS or name in self.sides:
+                fail(st, f"{self.fn.name}: {name!r} is bound more than once")
+            # `<range>.time` exists on 3D ranges only: the range must be known to be 3D where it is read
+            for var, side in self.sides.items():
+                if f"{side} DTime" in ex and not (var in path or (var == "self" and self.fn_is_3d)):
+                    fail(st, f"{self.fn.name}: the time component is read without knowing that the range has one")
+            # `_length(<range>.time, readout_times)` raises TypeError when both the stop and readout_times are absent: the
+            # model raises it where the value is compared, so nothing may be decided between the two places
+            may = "ESub" in ex and "BTimes" in ex
+            self.env[name] = (ex, may, len(self.out), list(path))
+        if isinstance(tg, ast.Tuple) and len(tg.elts) == 2 and all(isinstance(e, ast.Name) for e in tg.elts) \
+                and "_bounds" in self.helpers:
+            h = _helper_call(val, "_bounds", self.sides)
+            if h is None:
+                fail(st, f"{self.fn.name}: unsupported assignment")
+            new(tg.elts[0].id, f"(ERStart {h[0]} {h[1]} {h[2]})", val)
+            new(tg.elts[1].id, f"(ERStop {h[0]} {h[1]} {h[2]})", val)
+            return
+        if isinstance(tg, ast.Name):
+            new(tg.id, _expr(val, self.sides, env0, self.helpers), val)
+            return
+        fail(st, f"{self.fn.name}: unsupported assignment")
+
+    def walk(self, stmts, path: list) -> bool:
+        """-> does the block always leave the function?  `path`: isinstance facts known to hold"""
+        for i, st in enumerate(stmts):
+            self.n_at_stmt = len(self.out)
+            if isinstance(st, ast.Pass) or (isinstance(st, ast.Expr) and isinstance(st.value, ast.Constant)):
+                continue
+            if isinstance(st, (ast.Assign, ast.AnnAssign)) and getattr(st, "value", None) is not None \
+                    and (isinstance(st, ast.AnnAssign) or len(st.targets) == 1):
+                self.bind(st, path)
+                continue
+            if isinstance(st, ast.Return) and st.value is None:
+                return True
+            if isinstance(st, ast.Raise):
+                if not _raises_value_error([st]):
+                    fail(st, f"{self.fn.name}: only ValueError may be raised")
+                if path:
+                    fail(st, f"{self.fn.name}: unconditional raise for one kind of range")
+                fail(st, f"{self.fn.name}: unconditional raise")
+            if not isinstance(st, ast.If):
+                fail(st, f"{self.fn.name}: every statement must be a guard `if <cond>: raise ValueError(...)`, an assignment of "
+                         "a range bound / length, or a nest of them")
+            f = self.formula(st.test)
+            body_raises = bool(st.body) and isinstance(st.body[0], ast.Raise)
+            else_raises = bool(st.orelse) and isinstance(st.orelse[0], ast.Raise)
+            if body_raises or else_raises:
+                blk = st.body if body_raises else st.orelse
+                if not _raises_value_error(blk[:1]):
+                    fail(st, f"{self.fn.name}: only ValueError may be raised")
+                self.emit(self.rows(self.nnf(f, neg=not body_raises), list(path), st), st)
+                other = st.orelse if body_raises else st.body
+                # the raising branch is covered by the rows just emitted: the other branch and what follows run when
+                # none of them fired, which is what "later rows" means
+                if self.walk(other, path):
+                    return True
+                continue
+            # no immediate raise: only `isinstance` facts may select a sub-block
+            pos = self.nnf(f)
+            facts = [pos] if pos[0] == "atom" else (pos[1] if pos[0] == "and" else None)
+            if facts is None or not all(x[0] == "atom" and x[2][0] == "isinst" and not x[1] for x in facts):
+                fail(st, f"{self.fn.name}: a block of guards may only depend on the ranges being 3D")
+            if st.orelse:
+                fail(st, f"{self.fn.name}: `else` of a block of guards")
+            if self.walk(st.body, path + [x[2][1] for x in facts]):
+                fail(st, f"{self.fn.name}: a conditional block leaves the function")
+        return False
+
+    def run(self, fn_is_3d: bool) -> list[str]:
+        self.fn_is_3d = fn_is_3d
+        self.n_at_stmt = 0
+        self.walk(body_no_doc(self.fn), [])
+        if not self.out:
+            fail(self.fn, f"{self.fn.name}: no guard found")
+        return self.out
+
+
+def _guards(fn: ast.FunctionDef, sides: dict, allow_pre: bool, helpers: frozenset = frozenset(), is_3d: bool = False) -> list[str]:
+    return _GuardWalk(fn, sides, allow_pre, helpers).run(is_3d)
 
 
 def _kw_call(node, func_src: str, kws: dict) -> bool:
@@ -1008,6 +1170,74 @@ CALL_SINGLE = "{| cs_rows := (QTgt DRow); cs_cols := (QTgt DCol); cs_times := QA
 CALL_MULTI = "{| cs_rows := (QTgt DRow); cs_cols := (QTgt DCol); cs_times := (QTgt DTime) |}"
 
 
+# ------------------------------------------------------------------------------------------ normalisation
+
+# names the extractors key on (never inlined): the semantic helpers of util.py, the guard functions themselves, and
+# the methods of the problem whose calls are the landmarks of `__init__` / `fitness`
+UTIL_KEEP = {"_bounds", "_length", "_check_out_fit_ranges", "_check_out_ranges"}
+FIT_KEEP = {"_calculate_fitness", "_get_simulated_data", "_configure_weights", "_set_bound", "_target_indexers"}
+
+
+def _resolver(tree, cls: ast.ClassDef | None, keep: set):
+    funcs = {n.name: n for n in tree.body if isinstance(n, ast.FunctionDef)}
+    methods = {n.name: n for n in cls.body if isinstance(n, ast.FunctionDef)} if cls is not None else {}
+
+    def resolve(call):
+        f = call.func
+        if isinstance(f, ast.Name) and f.id.startswith("_") and not f.id.startswith("__") and f.id in funcs and f.id not in keep:
+            return funcs[f.id], False
+        if isinstance(f, ast.Attribute) and isinstance(f.value, ast.Name) and f.value.id == "self" \
+                and f.attr.startswith("_") and not f.attr.startswith("__") and f.attr in methods and f.attr not in keep:
+            m = methods[f.attr]
+            if any(ast.unparse(d) in ("staticmethod", "classmethod", "property") for d in m.decorator_list):
+                return None
+            return m, True
+        return None
+    return resolve
+
+
+def _class(tree, name):
+    return next((n for n in ast.walk(tree) if isinstance(n, ast.ClassDef) and n.name == name), None)
+
+
+def _norm_guard_fn(tree, fn, cls_name=None):
+    fn = norm.match_to_if(norm.Inliner(_resolver(tree, _class(tree, cls_name) if cls_name else None, UTIL_KEEP)).function(fn))
+    return norm.renumber(norm.resolve_constants(fn, norm.module_constants(tree)))
+
+
+def _norm_fit_tree(tree):
+    """a copy of fitting_datatree.py's module in which `__init__`, `fitness` and `_configure_weights` of the problem class
+    are normalised (private helpers inlined, aliases substituted, negated tests swapped, module constants resolved)"""
+    tree = ast.parse(ast.unparse(tree))
+    cls = _class(tree, CLS)
+    if cls is None:
+        fail(tree, f"class {CLS} not found")
+    consts = norm.module_constants(tree)
+    methods = {n.name: n for n in cls.body if isinstance(n, ast.FunctionDef)}
+    resolve = _resolver(tree, cls, FIT_KEEP)
+
+    def writes_of_callees(fn, seen=None):
+        seen = set() if seen is None else seen
+        out = set()
+        for n in ast.walk(fn):
+            if isinstance(n, ast.Call) and _self_attr(n.func) in methods and _self_attr(n.func) not in seen:
+                seen.add(_self_attr(n.func))
+                m = methods[_self_attr(n.func)]
+                out |= norm.self_writes(m) | writes_of_callees(m, seen)
+        return out
+    for i, st in enumerate(cls.body):
+        if isinstance(st, ast.FunctionDef) and st.name in ("__init__", "fitness", "_configure_weights"):
+            fn = norm.Inliner(resolve).function(st)
+            fn = norm.match_to_if(fn)
+            if st.name == "fitness":
+                fn = norm.ifexp_assign(fn)
+            fn = norm.swap_negated_ifs(fn)
+            fn = norm.subst_aliases(fn, writes_of_callees(fn) | norm.self_writes(fn))
+            fn = norm.resolve_constants(fn, consts)
+            cls.body[i] = fn
+    return ast.parse(ast.unparse(ast.fix_missing_locations(tree)))
+
+
 def translate(repo: Path) -> str:
     tree = parse(repo, REL)
     helpers = _helpers(tree)
@@ -1017,7 +1247,7 @@ def translate(repo: Path) -> str:
     if params not in (["target_fit_range", "out_fit_range"],
                       ["target_fit_range", "out_fit_range", "rows", "cols", "readout_times"]):
         fail(fo, "_check_out_fit_ranges signature")
-    og = _guards(fo, {"target_fit_range": "Tgt", "out_fit_range": "Out"}, allow_pre=True, helpers=helpers)
+    og = _guards(_norm_guard_fn(tree, fo), {"target_fit_range": "Tgt", "out_fit_range": "Out"}, allow_pre=True, helpers=helpers)
     if len(params) == 2 and any("EBound" in g or "ERSt" in g for g in og):
         fail(fo, "_check_out_fit_ranges uses sizes it does not receive")
     f2 = find_func(tree, "check", cls="FitRange2D")
@@ -1026,9 +1256,9 @@ def translate(repo: Path) -> str:
     f3 = find_func(tree, "check", cls="FitRange3D")
     if [a.arg for a in f3.args.args] != ["self", "rows", "cols", "readout_times"]:
         fail(f3, "FitRange3D.check signature")
-    c2 = _guards(f2, {"self": "Tgt"}, allow_pre=False, helpers=helpers)
-    c3 = _guards(f3, {"self": "Tgt"}, allow_pre=False, helpers=helpers)
-    fit_tree = parse(repo, REL_FIT)
+    c2 = _guards(_norm_guard_fn(tree, f2, "FitRange2D"), {"self": "Tgt"}, allow_pre=False, helpers=helpers)
+    c3 = _guards(_norm_guard_fn(tree, f3, "FitRange3D"), {"self": "Tgt"}, allow_pre=False, helpers=helpers, is_3d=True)
+    fit_tree = _norm_fit_tree(parse(repo, REL_FIT))
     single, multi = _call_sites(fit_tree)
     return render(og, c2, c3, single, multi, target_first, _weights_conf(fit_tree), _fitness_desc(fit_tree))
 
